@@ -216,7 +216,39 @@ type recvable interface {
 }
 
 // Case is one case of a select statement.
+type sendable interface {
+	canSend() bool
+	doSend(v interface{})
+	realChan() interface{}
+}
+
+func (c *Uint64) canSend() bool { return c.closed || len(c.buf) < c.cap }
+func (c *Uint64) doSend(v interface{}) {
+	if c.closed {
+		panic("send on closed channel")
+	}
+	c.buf = append(c.buf, v.(uint64))
+}
+func (c *Struct) canSend() bool { return c.closed || c.n < c.cap }
+func (c *Struct) doSend(interface{}) {
+	if c.closed {
+		panic("send on closed channel")
+	}
+	c.n++
+}
+
+// SendTo is `case ch <- v` for a shim channel.
+func SendTo(ch interface{}, v interface{}) Case {
+	s, ok := ch.(sendable)
+	if !ok {
+		panic("vchan: unsupported channel type in select send")
+	}
+	return Case{snd: s, val: v}
+}
+
 type Case struct {
+	snd     sendable
+	val     interface{}
 	ch      recvable        // shim channel receive
 	foreign <-chan struct{} // receive from a channel not created by the code under test (ctx.Done())
 	deflt   bool
@@ -262,6 +294,8 @@ func Select(cases ...Case) int {
 			switch {
 			case c.deflt:
 				rc[i] = reflect.SelectCase{Dir: reflect.SelectDefault}
+			case c.snd != nil:
+				rc[i] = reflect.SelectCase{Dir: reflect.SelectSend, Chan: reflect.ValueOf(c.snd.realChan()), Send: reflect.ValueOf(c.val)}
 			case c.ch != nil:
 				rc[i] = reflect.SelectCase{Dir: reflect.SelectRecv, Chan: reflect.ValueOf(c.ch.realChan())}
 			default:
@@ -279,6 +313,10 @@ func Select(cases ...Case) int {
 		for i, c := range cases {
 			switch {
 			case c.deflt:
+			case c.snd != nil:
+				if c.snd.canSend() {
+					r = append(r, i)
+				}
 			case c.ch != nil:
 				if c.ch.ready() {
 					r = append(r, i)
@@ -320,7 +358,9 @@ func Select(cases ...Case) int {
 		return 0
 	}
 	i := r[alt%len(r)]
-	if cases[i].ch != nil {
+	if cases[i].snd != nil {
+		cases[i].snd.doSend(cases[i].val)
+	} else if cases[i].ch != nil {
 		cases[i].ch.take()
 	}
 	vsched.Log("select case %d", i)
